@@ -32,6 +32,10 @@ type AbstractTokenizer struct {
 	Scanner        io.IScanner
 	NextTokenValue *Token
 	LastTokenType  int
+	// ReaderVersion counts the inputs assigned so far (SetReader). Tokenizers that keep per-input state
+	// compare it with the version they saw last to notice a new input, also when the same scanner object
+	// is assigned again.
+	ReaderVersion int
 }
 
 func InheritAbstractTokenizer(overrides ITokenizerOverrides) *AbstractTokenizer {
@@ -168,6 +172,7 @@ func (c *AbstractTokenizer) SetReader(value io.IScanner) {
 	c.Scanner = value
 	c.NextTokenValue = nil
 	c.LastTokenType = Unknown
+	c.ReaderVersion++
 }
 
 func (c *AbstractTokenizer) HasNextToken() bool {
